@@ -95,3 +95,35 @@ func MetricUses(p *Program) []*[]Expr {
 	}
 	return out
 }
+
+// WalkExpr calls fn on e and every sub-expression of e (keys included).
+func WalkExpr(e Expr, fn func(Expr)) {
+	if e == nil {
+		return
+	}
+	fn(e)
+	switch n := e.(type) {
+	case *MetricRead:
+		for _, k := range n.Keys {
+			WalkExpr(k, fn)
+		}
+	case *IncExpr:
+		for _, k := range n.Keys {
+			WalkExpr(k, fn)
+		}
+	case *Bin:
+		WalkExpr(n.L, fn)
+		WalkExpr(n.R, fn)
+	case *BitNot:
+		WalkExpr(n.E, fn)
+	case *Call:
+		for _, a := range n.Args {
+			WalkExpr(a, fn)
+		}
+	case *SubstRe:
+		WalkExpr(n.New, fn)
+		WalkExpr(n.Val, fn)
+	case *Match:
+		WalkExpr(n.E, fn)
+	}
+}
